@@ -19,7 +19,11 @@ use proptest::{
 use serde::{de::DeserializeOwned, Serialize};
 use serde_json::{json, Value};
 
-pub const VERIF_ROOT: &str = "/verif";
+/// Root of the verification tree (evidence, replays, known findings). Overridable for isolated
+/// sensitivity runs against a scratch copy of the repository.
+pub fn verif_root() -> PathBuf {
+    PathBuf::from(std::env::var("VERIF_ROOT_DIR").unwrap_or_else(|_| "/verif".to_string()))
+}
 
 #[derive(Clone, Copy, PartialEq, Eq, Debug)]
 pub enum Tier {
@@ -291,7 +295,7 @@ impl Run {
                 .or_insert(0) += 1;
             return false;
         }
-        let dir = PathBuf::from(VERIF_ROOT).join("replays").join(&self.id);
+        let dir = verif_root().join("replays").join(&self.id);
         let _ = std::fs::create_dir_all(&dir);
         let body = json!({
             "property": self.id,
@@ -327,7 +331,7 @@ impl Run {
 
     /// Committed regression cases for this check: /verif/replays/<id>/reg-*.json
     fn regression_cases<V: DeserializeOwned>(&self, check: &str) -> Vec<V> {
-        let dir = PathBuf::from(VERIF_ROOT).join("replays").join(&self.id);
+        let dir = verif_root().join("replays").join(&self.id);
         let mut out = vec![];
         let mut names: Vec<PathBuf> = match std::fs::read_dir(&dir) {
             Ok(rd) => rd.filter_map(|e| e.ok()).map(|e| e.path()).collect(),
@@ -610,7 +614,7 @@ impl Run {
             "violations": g.violations.len(),
         });
         if self.replay.is_none() {
-            let dir = PathBuf::from(VERIF_ROOT).join("evidence");
+            let dir = verif_root().join("evidence");
             let _ = std::fs::create_dir_all(&dir);
             let p = dir.join(format!("{}.json", self.id));
             if let Err(e) = std::fs::write(&p, serde_json::to_string_pretty(&ev).unwrap()) {
@@ -653,7 +657,7 @@ impl Run {
 }
 
 fn load_known(id: &str) -> Vec<KnownFinding> {
-    let p = PathBuf::from(VERIF_ROOT).join("known_findings.json");
+    let p = verif_root().join("known_findings.json");
     let Ok(txt) = std::fs::read_to_string(&p) else {
         return vec![];
     };
